@@ -154,7 +154,14 @@ def run(pid, module, tier, root, seed, quiet=False, evidence=True):
         _, _, _, ambiguous = c.R.resolution_stats()
         if ambiguous:
             raise AnalysisError(f'unresolved calls on possible repo receivers: {ambiguous}')
-        module.run(c)
+        try:
+            module.run(c)
+        except AnalysisError as e:
+            # a violation positively identified before the analysis had to stop is still a violation
+            if not any(o.verdict == VIOLATED for o in c.obs):
+                raise
+            c.notes.append(f'analysis stopped early: {e}')
+            c.incomplete = str(e)
         ff = [f'{label}: found {found} < {minimum}' for label, found, minimum in c.floors if found < minimum]
         if ff and not any(o.verdict == VIOLATED for o in c.obs):
             raise AnalysisError(f'non-vacuity floor not met: {"; ".join(ff)}')
@@ -237,6 +244,8 @@ def run(pid, module, tier, root, seed, quiet=False, evidence=True):
         lines.append(f'NOTE: known finding no longer reproduced by the rules: {c}')
     if adopted:
         lines.append('NOTE: ' + adopted)
+    if getattr(ctx, 'incomplete', None):
+        lines.append('NOTE: analysis stopped early (' + ctx.incomplete + '); the violations above were established before that point')
     print('\n'.join(lines))
     n = len(ctx.obs)
     nd = sum(1 for o in ctx.obs if o.verdict == DISCHARGED)
